@@ -7,7 +7,7 @@ use crate::common::*;
 use linfa::traits::FitWith;
 use linfa::{DatasetBase, ParamGuard};
 use linfa_clustering::{IncrKMeansError, KMeans, KMeansInit, KMeansValidParams};
-use linfa_nn::distance::L2Dist;
+use linfa_nn::distance::{Distance, L1Dist, L2Dist, LInfDist};
 use lvmc_core::{guarded, json, Value, Violation};
 use ndarray::Array2;
 use rand_xoshiro::rand_core::SeedableRng;
@@ -18,6 +18,9 @@ use std::collections::{HashMap, VecDeque};
 #[derive(Clone, Debug, Serialize, Deserialize)]
 pub struct KmCase {
     pub pool_name: String,
+    /// "L2" | "L1" | "Linf": the distance function handed to KMeans::params_with
+    #[serde(default = "default_metric")]
+    pub metric: String,
     /// the pool of batches (each a list of rows)
     pub pool: Vec<Vec<Vec<f64>>>,
     pub k: usize,
@@ -34,11 +37,53 @@ pub struct KmCase {
     pub only_history: Option<Vec<usize>>,
 }
 
+fn default_metric() -> String {
+    "L2".to_string()
+}
+
 pub const KM_TOL: f64 = 1e-12;
 const TIE_COMBO_CAP: usize = 256;
 
-type Model = KMeans<f64, L2Dist>;
-type Params = KMeansValidParams<f64, Xoshiro256Plus, L2Dist>;
+type Model<D> = KMeans<f64, D>;
+type Params<D> = KMeansValidParams<f64, Xoshiro256Plus, D>;
+
+/// Own definition of the three metrics. `rdist` is what the subject documents for the
+/// nearest-centroid assignment and the inertia (`Distance::rdistance`: squared Euclidean for L2,
+/// the plain distance otherwise); `matrix_dist` is the distance of the metric applied to the whole
+/// centroid matrix (`Distance::distance` on 2-d views), which is the shift compared with the
+/// tolerance: Frobenius norm / sum of all |differences| / largest |difference|.
+#[derive(Clone, Copy, PartialEq)]
+enum Metric {
+    L2,
+    L1,
+    LInf,
+}
+
+fn metric_of(s: &str) -> Metric {
+    match s {
+        "L2" => Metric::L2,
+        "L1" => Metric::L1,
+        "Linf" => Metric::LInf,
+        _ => panic!("unknown metric"),
+    }
+}
+
+fn rdist(m: Metric, a: &[f64], b: &[f64]) -> f64 {
+    match m {
+        Metric::L2 => a.iter().zip(b).map(|(x, y)| (x - y) * (x - y)).sum(),
+        Metric::L1 => a.iter().zip(b).map(|(x, y)| (x - y).abs()).sum(),
+        Metric::LInf => a.iter().zip(b).map(|(x, y)| (x - y).abs()).fold(0.0, f64::max),
+    }
+}
+
+fn matrix_dist(m: Metric, a: &[Vec<f64>], b: &[Vec<f64>]) -> f64 {
+    let fa: Vec<f64> = a.iter().flatten().cloned().collect();
+    let fb: Vec<f64> = b.iter().flatten().cloned().collect();
+    match m {
+        Metric::L2 => rdist(Metric::L2, &fa, &fb).sqrt(),
+        _ => rdist(m, &fa, &fb),
+    }
+}
 
 #[derive(Clone, Debug, PartialEq)]
 struct KState {
@@ -46,7 +91,7 @@ struct KState {
     cnt: Vec<f64>,
 }
 
-fn params(case: &KmCase, tol: f64) -> Params {
+fn params<D: Distance<f64>>(case: &KmCase, tol: f64, dist_fn: D) -> Params<D> {
     let init = match case.init.as_str() {
         "precomputed" => {
             let p = case.init_centroids[0].len();
@@ -56,7 +101,7 @@ fn params(case: &KmCase, tol: f64) -> Params {
         "random" => KMeansInit::Random,
         _ => panic!("unknown init"),
     };
-    KMeans::params_with_rng(case.k, Xoshiro256Plus::seed_from_u64(case.seed))
+    KMeans::params_with(case.k, Xoshiro256Plus::seed_from_u64(case.seed), dist_fn)
         .tolerance(tol)
         .n_runs(case.n_runs)
         .init_method(init)
@@ -64,7 +109,7 @@ fn params(case: &KmCase, tol: f64) -> Params {
         .expect("valid k-means parameters")
 }
 
-fn state_of(m: &Model) -> KState {
+fn state_of<D: Distance<f64>>(m: &Model<D>) -> KState {
     KState {
         c: m.centroids().rows().into_iter().map(|r| r.to_vec()).collect(),
         cnt: m.cluster_count().to_vec(),
@@ -80,9 +125,6 @@ fn canon(s: &KState) -> Vec<u8> {
     out
 }
 
-fn sqd(a: &[f64], b: &[f64]) -> f64 {
-    a.iter().zip(b).map(|(x, y)| (x - y) * (x - y)).sum()
-}
 
 /// One candidate outcome of the reference step.
 struct RefOut {
@@ -95,12 +137,12 @@ struct RefOut {
 /// (all assignments first), then in row order `count[c] += 1; c += (x - c) / count[c]`.
 /// Equidistant centroids (within 1e-12 relative) make the assignment a choice: every combination
 /// of admissible choices is returned (None when there are more than TIE_COMBO_CAP combinations).
-fn ref_step(prev: &KState, batch: &[Vec<f64>]) -> Option<(Vec<RefOut>, bool)> {
+fn ref_step(metric: Metric, prev: &KState, batch: &[Vec<f64>]) -> Option<(Vec<RefOut>, bool)> {
     let k = prev.c.len();
     let mut tie_sets: Vec<Vec<usize>> = Vec::new();
     let mut inertia = 0.0;
     for x in batch {
-        let d: Vec<f64> = (0..k).map(|c| sqd(&prev.c[c], x)).collect();
+        let d: Vec<f64> = (0..k).map(|c| rdist(metric, &prev.c[c], x)).collect();
         let dmin = d.iter().cloned().fold(f64::INFINITY, f64::min);
         inertia += dmin;
         tie_sets.push((0..k).filter(|&c| d[c] <= dmin + 1e-12 * (1.0 + dmin)).collect());
@@ -124,11 +166,8 @@ fn ref_step(prev: &KState, batch: &[Vec<f64>]) -> Option<(Vec<RefOut>, bool)> {
                 c[m][j] += sh;
             }
         }
-        let mut s2 = 0.0;
-        for a in 0..k {
-            s2 += sqd(&c[a], &prev.c[a]);
-        }
-        outs.push(RefOut { st: KState { c, cnt }, shift: s2.sqrt(), inertia });
+        let shift = matrix_dist(metric, &prev.c, &c);
+        outs.push(RefOut { st: KState { c, cnt }, shift, inertia });
         // next combination
         let mut i = 0;
         loop {
@@ -149,14 +188,14 @@ fn same_centroids(a: &KState, b: &KState) -> bool {
     a.c.iter().zip(&b.c).all(|(r, s)| r.iter().zip(s).all(|(x, y)| close(*x, *y, KM_TOL, KM_TOL)))
 }
 
-enum Step {
-    Ok(Model),
-    NotConverged(Model),
+enum Step<D: Distance<f64>> {
+    Ok(Model<D>),
+    NotConverged(Model<D>),
     Error(String),
     Panic(String),
 }
 
-fn real_step(p: &Params, prev: Option<&Model>, batch: &[Vec<f64>]) -> Step {
+fn real_step<D: Distance<f64> + std::fmt::Debug + 'static>(p: &Params<D>, prev: Option<&Model<D>>, batch: &[Vec<f64>]) -> Step<D> {
     let d = batch[0].len();
     let x = Array2::from_shape_fn((batch.len(), d), |(i, j)| batch[i][j]);
     let ds = DatasetBase::from(x);
@@ -169,13 +208,22 @@ fn real_step(p: &Params, prev: Option<&Model>, batch: &[Vec<f64>]) -> Step {
     }
 }
 
-struct Node {
-    model: Option<Model>,
+struct Node<D: Distance<f64>> {
+    model: Option<Model<D>>,
     st: Option<KState>,
     hist: Vec<usize>,
 }
 
 pub fn run_km(case: &KmCase, out: &mut Out) {
+    match metric_of(&case.metric) {
+        Metric::L2 => run_km_d(case, L2Dist, out),
+        Metric::L1 => run_km_d(case, L1Dist, out),
+        Metric::LInf => run_km_d(case, LInfDist, out),
+    }
+}
+
+fn run_km_d<D: Distance<f64> + std::fmt::Debug + 'static>(case: &KmCase, dist_fn: D, out: &mut Out) {
+    let metric = metric_of(&case.metric);
     let cj = |hist: &[usize], extra: Value| -> Value {
         let mut c = case.clone();
         c.only_history = Some(hist.to_vec());
@@ -185,9 +233,9 @@ pub fn run_km(case: &KmCase, out: &mut Out) {
         o.insert("at".into(), extra);
         v
     };
-    let ps: Vec<Params> = case.tolerances.iter().map(|&t| params(case, t)).collect();
+    let ps: Vec<Params<D>> = case.tolerances.iter().map(|&t| params(case, t, dist_fn.clone())).collect();
     let nb = case.pool.len();
-    let mut nodes: Vec<Node> = vec![Node { model: None, st: None, hist: vec![] }];
+    let mut nodes: Vec<Node<D>> = vec![Node { model: None, st: None, hist: vec![] }];
     let mut index: HashMap<Vec<u8>, usize> = HashMap::new();
     let mut edges: HashMap<(usize, usize), usize> = HashMap::new();
     let mut q: VecDeque<usize> = VecDeque::new();
@@ -214,7 +262,7 @@ pub fn run_km(case: &KmCase, out: &mut Out) {
             }
             out.transitions += 1;
             // ---- the real calls: one per tolerance, all must carry the same model ----
-            let mut results: Vec<(bool, Model)> = Vec::new();
+            let mut results: Vec<(bool, Model<D>)> = Vec::new();
             let mut failed = false;
             for p in &ps {
                 out.evals += 1;
@@ -284,7 +332,7 @@ pub fn run_km(case: &KmCase, out: &mut Out) {
             let mut ties = false;
             let mut capped = false;
             for pv in &prevs {
-                match ref_step(pv, batch) {
+                match ref_step(metric, pv, batch) {
                     Some((o, t)) => {
                         ties |= t;
                         cands.extend(o);
@@ -347,6 +395,12 @@ pub fn run_km(case: &KmCase, out: &mut Out) {
                     out.indeterminate += 1;
                     continue;
                 }
+                if metric != Metric::L2 {
+                    let (lo, hi) = if tol < 1.0 { (tol * tol, tol) } else { (tol, tol * tol) };
+                    if matching.iter().all(|m| m.shift > lo && m.shift < hi) {
+                        out.bump("kmeans_non_euclidean_verdicts_with_shift_strictly_between_tolerance_and_its_square", 1);
+                    }
+                }
                 if matching.iter().any(|m| m.shift == tol) {
                     out.bump("kmeans_verdicts_with_shift_exactly_equal_to_tolerance", 1);
                 }
@@ -361,7 +415,8 @@ pub fn run_km(case: &KmCase, out: &mut Out) {
                     out.viols.push(Violation::new(
                         sig,
                         format!(
-                            "history {:?}: centroid shift {:e}, tolerance {:e}: expected {}, got {}",
+                            "metric {}, history {:?}: centroid shift (distance of the metric between old and new centroid matrix) {:e}, tolerance {:e}: expected {}, got {}",
+                            case.metric,
                             hist,
                             sh,
                             tol,
@@ -372,7 +427,7 @@ pub fn run_km(case: &KmCase, out: &mut Out) {
                     ));
                 }
             }
-            // ---- inertia: mean squared distance of the batch rows to their nearest (previous) centroid ----
+            // ---- inertia: mean reduced distance (squared for L2) of the batch rows to their nearest (previous) centroid ----
             if !matching.iter().any(|m| close(m.inertia, got_inertia, 1e-12, 1e-12)) {
                 out.viols.push(Violation::new(
                     "kmeans.fit_with.inertia_not_mean_min_distance_of_batch",
@@ -407,7 +462,7 @@ pub fn run_km(case: &KmCase, out: &mut Out) {
             None => lvmc_core::enumerate::sequences(case.max_len, nb),
         };
         for seq in seqs {
-            let mut m: Option<Model> = None;
+            let mut m: Option<Model<D>> = None;
             let mut id = 0usize;
             let mut okp = true;
             for (d, &b) in seq.iter().enumerate() {
